@@ -12,6 +12,7 @@ import (
 	"math"
 	"math/big"
 	"math/rand/v2"
+	"slices"
 
 	"github.com/nspcc-dev/neo-go/pkg/core/mempoolevent"
 	"github.com/nspcc-dev/neo-go/pkg/core/native/noderoles"
@@ -483,7 +484,15 @@ func initDesignateNotaryRoleAsLeaderTick(ctx context.Context, prm enableNotaryPr
 				make([]byte, extraLen)...)
 			buf := tx.Scripts[1].InvocationScript[initialLen:]
 
-			for _, sig := range mCommitteeIndexToSignature {
+			// multi-signature witness must follow the order of the committee keys
+			indices := make([]int, 0, len(mCommitteeIndexToSignature))
+			for i := range mCommitteeIndexToSignature {
+				indices = append(indices, i)
+			}
+			slices.Sort(indices)
+
+			for _, i := range indices {
+				sig := mCommitteeIndexToSignature[i]
 				buf[0] = byte(opcode.PUSHDATA1)
 				buf[1] = byte(len(sig))
 				buf = buf[2:]
